@@ -20,6 +20,7 @@ RULE = ("simple loop-free graphs: every atlas graph with <= 6 vertices (sampled)
         "max_size in {0,2,3,4,5}; schedules: shuffle -> identity, reverse, 3 seeds, and every relative order of the largest cliques when there are "
         "<= 5 of them; in half of the cases the same graph object is then rewired in place (degree-preserving double edge swaps) and covered again; non-trivial = >= 2 overlapping cliques of size >= 3; distinct = SHA-1 of (graph, max_size)")
 RULE += ("; rounds k-l added: " + '20% of the graphs (<= 40 vertices) on signed or one-hash integer labels')
+RULE += '; round m: one graph with more than 2**20 vertices (nearly all isolated; edges among 28 vertices at low and high positions) per quick run'
 ASSUMPTIONS = ["vertex ids are non-negative ints (label parsing splits on '-')", "ids need not be dense; member order inside a label is free"]
 HEADLINE = ["runs", "graphs", "edges_labelled", "cliques_checked_for_maximality", "top_order_enumerations", "limit_cases", "shuffle_hook_seen", "isolated_vertex_graphs", "recover_after_in_place_rewiring", "large_disconnected_graphs"]
 REQUIRED = {t: {"runs": 500, "cliques_checked_for_maximality": 2000, "top_order_enumerations": 20, "limit_cases": 50, "shuffle_hook_seen": 100, "recover_after_in_place_rewiring": 30, "large_disconnected_graphs": 3}
